@@ -101,6 +101,24 @@ def run_sleep(job):
 # --------------------------------------------------------------------------- asyncio.wait spy
 
 
+class Deadlock(Exception):
+    pass
+
+
+def _guard_vloop():
+    """a serial evaluator's loop with nothing ready and no timer can never wake up again: raise instead of
+    blocking for ever (surfaces as an exception of the call that ran the loop)"""
+    orig = vloop.VLoop._run_once
+
+    def _run_once(self):
+        if not self._ready and not self._scheduled:
+            raise Deadlock("event loop idle for ever: the awaited tasks can never finish")
+        return orig(self)
+
+    vloop.VLoop._run_once = _run_once
+    return orig
+
+
 class WaitSpy:
     """records, for every asyncio.wait call, the job ids of the not-cancelled tasks of `done` in the
     iteration order of that set (consecutive identical results are collapsed: the busy-spinning
@@ -845,6 +863,12 @@ def _nontrivial(case, trace):
 
 def check_case(ck, d, case, spy, vt, from_corpus=False):
     trace = drive(case, spy, vt)
+    return judge(ck, d, case, trace, spy, vt, from_corpus)
+
+
+def judge(ck, d, case, trace, spy, vt, from_corpus=False, within=None):
+    """L3 (Lean checkTrace + Python cross-check) and L2 for the trace of ONE evaluator; `within` = the
+    scenario with several evaluators this trace was recorded in (then it is the stored replay)"""
     complete = len(trace) == len(case["ops"])
     _stats(ck, case, trace)
     ck.case({k: case[k] for k in ("backend", "hpo", "workers", "ops")}, nontrivial=_nontrivial(case, trace))
@@ -871,14 +895,18 @@ def check_case(ck, d, case, spy, vt, from_corpus=False):
         seen = ck.extra_cov.setdefault("_fails", {})
         seen[clause] = seen.get(clause, 0) + 1
         # shrink the first few failing scripts of every clause; later ones keep their own fingerprint
-        if case["backend"] == "serial" and not from_corpus and seen[clause] <= 8 and ff_py and ff_py[0] == fp:
+        if within is not None:
+            fp += "+other-evaluators-alive"
+            small = within
+        elif case["backend"] == "serial" and not from_corpus and seen[clause] <= 8 and ff_py and ff_py[0] == fp:
             cand = shrink(case, spy, vt, fp)
             tr2 = drive(cand, spy, vt)
             ff2 = lean_failure(cand, tr2, d)
             if ff2 and ff2[0] == fp:
                 small, (fp, clause, i, detail) = cand, ff2
-        ck.fail(fp, f"{clause} at call {i} ({small['ops'][i]['op']}): {detail}", small,
-                {"clause": clause, "call_index": i, "detail": detail, "oracle": "Lean checkTrace (C01_checker)"})
+        ck.fail(fp, f"{clause} at call {i} ({case['ops'][i]['op'] if within is not None else small['ops'][i]['op']}): {detail}", small,
+                {"clause": clause, "call_index": i, "detail": detail, "oracle": "Lean checkTrace (C01_checker)",
+                 **({"evaluator": case.get("_index")} if within is not None else {})})
     bad = ff
     # L2
     reps = d.ask_all(lean_requests(case, trace))
@@ -888,6 +916,67 @@ def check_case(ck, d, case, spy, vt, from_corpus=False):
     elif not complete and not bad:
         ck.mismatch(case, "script ended early without an oracle failure")
     return bad, mm
+
+
+# --------------------------------------------------------------------------- several independent evaluators
+
+
+def gen_multi_case(rng, maxlen=7):
+    """2-3 independent evaluators (own storage) alive at once in one thread, their calls interleaved; one of
+    them may be dropped (garbage-collected, which closes it) while the others have jobs in flight"""
+    k = rng.choice([2, 2, 3])
+    evs = [gen_case(rng, "serial", maxlen) for _ in range(k)]
+    if rng.random() < 0.4:  # the caller forgets one evaluator in the middle of its script
+        v = rng.randrange(k)
+        cut = rng.randint(1, len(evs[v]["ops"]) - 1)
+        evs[v]["ops"] = evs[v]["ops"][:cut] + [{"op": "drop"}]
+    slots = [i for i, e in enumerate(evs) for _ in e["ops"]]
+    rng.shuffle(slots)
+    return {"multi": True, "backend": "serial", "evaluators": evs, "schedule": slots}
+
+
+def check_multi(ck, d, case, spy, vt):
+    """non-interference: the trace of every evaluator must satisfy the property (checkTrace) and agree with
+    the model whatever happens to the other evaluators"""
+    import gc
+
+    evs = case["evaluators"]
+    reals = [Real(e, spy, vt if i == 0 else None) for i, e in enumerate(evs)]
+    traces = [[] for _ in evs]
+    pos = [0] * len(evs)
+    dead = set()
+    try:
+        for who in case["schedule"]:
+            if who in dead or pos[who] >= len(evs[who]["ops"]):
+                continue
+            op = evs[who]["ops"][pos[who]]
+            pos[who] += 1
+            if op["op"] == "drop":
+                reals[who].ev = None  # the last reference: __del__ closes the evaluator
+                gc.collect()
+                dead.add(who)
+                ck.count("multi:evaluator-garbage-collected-while-others-alive")
+                continue
+            obs = reals[who].do(op)
+            traces[who].append(obs)
+            if obs["out"]["kind"] == "error" and obs["out"]["err"].startswith(("other:", "loopClosed")):
+                dead.add(who)
+            if op["op"] == "close" and any(p < len(e["ops"]) and j != who and j not in dead
+                                           for j, (p, e) in enumerate(zip(pos, evs))):
+                ck.count("multi:close-while-others-alive")
+    finally:
+        for r in reals:
+            if r.ev is not None:
+                r.dispose()
+    ck.count("multi-evaluator-scenario")
+    ck.case({"multi": True, "evaluators": [e["ops"] for e in evs], "schedule": case["schedule"]}, nontrivial=True)
+    out = []
+    for i, (e, tr) in enumerate(zip(evs, traces)):
+        sub = dict(e)
+        sub["ops"] = [o for o in e["ops"] if o["op"] != "drop"]
+        sub["_index"] = i
+        out.append(judge(ck, d, sub, tr, spy, vt, from_corpus=True, within=case))
+    return out
 
 
 # --------------------------------------------------------------------------- two evaluators, one storage search
@@ -921,10 +1010,12 @@ def shared_storage_case(ck, rng, vt, seed=None):
         ck.count("shared-storage:unknown-search-rejected")
     owner, cfgs = {}, {}
     local = [set(), set()]   # delivered to its own submitter
+    closed = [set(), set()]  # recorded by its own close()
     other = [set(), set()]   # reported to the other evaluator
     script, bad = [], []
     x = 0
-    steps = [(rng.randint(0, 1), rng.choice(["submit", "submit", "batch", "all"])) for _ in range(rng.randint(3, 10))]
+    steps = [(rng.randint(0, 1), rng.choice(["submit", "submit", "submit", "batch", "batch", "all", "all", "close"]))
+             for _ in range(rng.randint(3, 10))]
     steps += [(0, "all"), (1, "all"), (0, "all"), (1, "all")]
     try:
         for who, what in steps:
@@ -943,15 +1034,22 @@ def shared_storage_case(ck, rng, vt, seed=None):
                     cfgs[_jid(jid)] = c
                 x += n
                 continue
-            inflight = sum(1 for j, w in owner.items() if w == who and j not in local[who])
-            if what == "batch" and inflight == 0:
+            inflight = [j for j, w in owner.items() if w == who and j not in local[who] and j not in closed[who]]
+            if what == "close":  # while the other evaluator may have jobs in flight
+                ev.close()
+                closed[who].update(inflight)
+                if ev.num_jobs_gathered != len(local[who]) + len(closed[who]) + len(other[who]):
+                    bad.append(f"evaluator {who} after close: num_jobs_gathered={ev.num_jobs_gathered}")
+                    break
+                continue
+            if what == "batch" and not inflight:
                 continue
             with contextlib.redirect_stdout(io.StringIO()):
                 res = ev.gather("ALL") if what == "all" else ev.gather("BATCH", 1)
             loc, oth = res if isinstance(res, tuple) else (res, [])
             for jb in loc:
                 j = _jid(jb.id)
-                if owner.get(j) != who or j in local[who]:
+                if owner.get(j) != who or j in local[who] or j in closed[who]:
                     bad.append(f"evaluator {who} hands back job {j} (owner {owner.get(j)}, already delivered: {j in local[who]})")
                 elif jb.args != cfgs[j] or jb.output != _expected(cfgs[j], True) or jb.status.name != "DONE":
                     bad.append(f"job {j} local payload {jb.args} / {jb.output} / {jb.status.name}")
@@ -962,23 +1060,24 @@ def shared_storage_case(ck, rng, vt, seed=None):
                     bad.append(f"evaluator {who} reports its own / an unknown job {j} as foreign")
                 elif j in other[who]:
                     bad.append(f"evaluator {who} is told about foreign job {j} twice")
-                elif j not in local[1 - who]:
+                elif j not in local[1 - who] and j not in closed[1 - who]:
                     bad.append(f"foreign job {j} reported before its evaluator gathered it")
-                elif jb.args != {k: v for k, v in cfgs[j].items()} or jb.output != _expected(cfgs[j], True):
+                elif jb.args != cfgs[j] or (jb.output != _expected(cfgs[j], True) and
+                                            not (j in closed[1 - who] and jb.output == {"objective": "F_CANCELLED"})):
                     bad.append(f"foreign job {j} payload {jb.args} / {jb.output}")
                 other[who].add(j)
             total = len(owner)
             if ev.num_jobs_submitted != total:
                 bad.append(f"evaluator {who}: num_jobs_submitted={ev.num_jobs_submitted}, jobs in the shared search {total}")
-            if ev.num_jobs_gathered != len(local[who]) + len(other[who]):
-                bad.append(f"evaluator {who}: num_jobs_gathered={ev.num_jobs_gathered}, handed back {len(local[who])} + foreign {len(other[who])}")
+            if ev.num_jobs_gathered != len(local[who]) + len(closed[who]) + len(other[who]):
+                bad.append(f"evaluator {who}: num_jobs_gathered={ev.num_jobs_gathered}, handed back {len(local[who])} + closed {len(closed[who])} + foreign {len(other[who])}")
             if bad:
                 break
         if not bad:
             for who in (0, 1):
                 mine = {j for j, w in owner.items() if w == who}
-                if local[who] != mine:
-                    bad.append(f"evaluator {who} never handed back {sorted(mine - local[who])}")
+                if local[who] | closed[who] != mine:
+                    bad.append(f"evaluator {who} never handed back {sorted(mine - local[who] - closed[who])}")
                 if other[1 - who] != mine:
                     bad.append(f"evaluator {1 - who} was never told about foreign jobs {sorted(mine - other[1 - who])}")
     except Exception as e:  # what a user of the API would see
@@ -1026,11 +1125,12 @@ def run(ck):
     ]
     rng = ck.rng
     spy = WaitSpy()
-    n_serial, n_thread = ck.pick(550, 3000), ck.pick(100, 500)
+    n_serial, n_thread = ck.pick(420, 3000), ck.pick(90, 500)
     n_proc, n_loky = ck.pick(3, 40), ck.pick(2, 25)
     maxlen = ck.pick(12, 40)
     with ck.driver() as d:
         vt = vloop.install()
+        orig_once = _guard_vloop()
         spy.install()
         try:
             for name, case in _corpus():
@@ -1038,14 +1138,20 @@ def run(ck):
                 use_vt = vt if case["backend"] == "serial" else None
                 if use_vt is None:
                     continue
-                check_case(ck, d, case, spy, use_vt, from_corpus=True)
+                if case.get("multi"):
+                    check_multi(ck, d, case, spy, use_vt)
+                else:
+                    check_case(ck, d, case, spy, use_vt, from_corpus=True)
             for t in range(n_serial):
                 case = gen_case(rng, "serial", maxlen, malformed=(t % 6 == 5))
                 check_case(ck, d, case, spy, vt)
             for t in range(ck.pick(40, 400)):
                 shared_storage_case(ck, rng, vt)
+            for t in range(ck.pick(40, 400)):
+                check_multi(ck, d, gen_multi_case(rng), spy, vt)
         finally:
             spy.uninstall()
+            vloop.VLoop._run_once = orig_once
             vloop.uninstall()
         spy.install()
         try:
@@ -1063,7 +1169,20 @@ def run(ck):
             ck.extra_cov.pop("_fails", None)
 
 
-def replay(ck, case):
+def _replay(ck, case):
+    if case.get("multi"):
+        spy = WaitSpy()
+        vt = vloop.install()
+        spy.install()
+        try:
+            with ck.driver() as d:
+                res = check_multi(ck, d, case, spy, vt)
+        finally:
+            spy.uninstall()
+            vloop.uninstall()
+        ck.extra_cov.pop("_fails", None)
+        print("replay: per evaluator (oracle failure, model mismatch):", res)
+        return
     if case.get("shared_storage"):
         vt = vloop.install()
         try:
@@ -1083,3 +1202,11 @@ def replay(ck, case):
         vloop.uninstall()
     ck.extra_cov.pop("_fails", None)
     print("replay: oracle failures:", bad or "none", "| model mismatch:", mm or "none")
+
+
+def replay(ck, case):
+    orig_once = _guard_vloop()
+    try:
+        _replay(ck, case)
+    finally:
+        vloop.VLoop._run_once = orig_once
